@@ -73,9 +73,11 @@ class World:
         self.codes = dict(default_codes()) if codes is None else codes
         self.parser_codes = self.codes        # the table handed to the code (may be the code's own parse of a text)
         self.name2id = {}
+        self.name_ids = {}            # a supplied table may give one name to several ids: all of them decode
         for i, n in self.codes.items():
             if i & 3 == 0:
                 self.name2id.setdefault(n, i)
+                self.name_ids.setdefault(n, []).append(i)
         self.tids = {}
         self.rtids = {}
         self.big_tids = big_tids
@@ -175,7 +177,11 @@ class World:
 
     # ---- event constructors (abstract + concrete recipe)
     def _mk(self, name_or_id, cls, q, t, a, words=None, data=None):
-        eid = self.name2id[name_or_id] if isinstance(name_or_id, str) else name_or_id
+        if isinstance(name_or_id, str):
+            ids = self.name_ids[name_or_id]
+            eid = ids[0] if len(ids) == 1 else self.rnd.choice(ids)
+        else:
+            eid = name_or_id
         abs_ = {'tid': t, 'code': self.code(eid), 'cls': cls, 'q': q, 'a': a}
         return AEv(abs_, eid | q, self.ctid(t), words, data, name_or_id if isinstance(name_or_id, str) else None)
 
@@ -215,10 +221,11 @@ class World:
 
     def ntd(self, t, ntid, pid, q=0):
         return self._mk('TRACE_DATA_NEWTHREAD', 'NTD', q, t, {'ntid': ntid, 'pid': pid},
-                        words=(self.ctid(ntid), pid, 0, self.rnd.getrandbits(32)))
+                        words=(self.ctid(ntid), pid, self.rnd.choice([0, 0, 1, self.rnd.getrandbits(64)]), self.rnd.getrandbits(32)))
 
     def exd(self, t, pid, q=0):
-        return self._mk('TRACE_DATA_EXEC', 'EXD', q, t, {'pid': pid}, words=(pid, 1, 2, 0))
+        return self._mk('TRACE_DATA_EXEC', 'EXD', q, t, {'pid': pid},
+                        words=(pid, self.rnd.getrandbits(64), self.rnd.getrandbits(64), self.rnd.getrandbits(64)))
 
     def _namestr(self, name, cls, t, text, q=3):
         d = text.encode().ljust(32, b'\x00')
@@ -235,11 +242,12 @@ class World:
         return self._namestr('TRACE_STRING_PROC_EXIT', 'PEXIT', t, text, q)
 
     def term(self, t, ttid, q=0):
-        return self._mk('TRACE_DATA_THREAD_TERMINATE', 'TERM', q, t, {'ttid': ttid}, words=(self.ctid(ttid), 0, 0, 0))
+        return self._mk('TRACE_DATA_THREAD_TERMINATE', 'TERM', q, t, {'ttid': ttid},
+                        words=(self.ctid(ttid), self.rnd.getrandbits(64), self.rnd.getrandbits(64), self.rnd.getrandbits(64)))
 
     def tpid(self, t, pid, q=0):
         return self._mk('TRACE_DATA_THREAD_TERMINATE_PID', 'TPID', q, t, {'pid': pid},
-                        words=(pid, self.rnd.getrandbits(40), 0, 0))
+                        words=(pid, self.rnd.getrandbits(40), self.rnd.getrandbits(64), self.rnd.getrandbits(64)))
 
     def usestr(self, name, q, t, sid):
         w = list(self.words(name, 'end' if q == 2 else ('start' if q == 1 else 'single')))
@@ -253,7 +261,7 @@ class World:
             return self._mk('MACH_vmfault', 'VMF', q, t, {'result': result, 'ftype': ftype},
                             words=(self.rnd.getrandbits(64), self.rnd.getrandbits(64), result, ftype))
         return self._mk('MACH_vmfault', 'VMF', q, t, {'result': 0, 'ftype': 0},
-                        words=(self.rnd.getrandbits(64), self.rnd.getrandbits(48), self.rnd.choice([0, 1]), 0))
+                        words=(self.rnd.getrandbits(64), self.rnd.getrandbits(48), self.rnd.choice([0, 1]), self.rnd.getrandbits(64)))
 
     RFA_NAMES = ('RealFaultAddressInternal', 'RealFaultAddressExternal', 'RealFaultAddressSharedCache')
 
@@ -273,19 +281,21 @@ class World:
 
     def launch(self, q, t):
         return self._mk('DBG_DYLD_TIMING_LAUNCH_EXECUTABLE', 'LAUNCH', q, t, {'x': 0},
-                        words=(0, self.rnd.getrandbits(48), 0, 0))
+                        words=(self.rnd.getrandbits(64), self.rnd.getrandbits(48), self.rnd.getrandbits(64), self.rnd.getrandbits(64)))
 
     def perf(self, q, t, ti=False, us=False, other=0):
         flags = (1 if ti else 0) | (8 if us else 0) | (other & ~9 & 0x3fff)
         return self._mk('PERF_Event', 'PERF', q, t, {'ti': bool(ti), 'us': bool(us)},
-                        words=(flags, self.rnd.getrandbits(16), 0, 0))
+                        words=(flags, self.rnd.getrandbits(16), self.rnd.getrandbits(64), self.rnd.getrandbits(64)))
 
     def thd(self, t, pid, ttid, q=0):
         return self._mk('PERF_THD_Data', 'THD', q, t, {'pid': pid, 'ttid': ttid},
                         words=(pid, self.ctid(ttid), self.rnd.getrandbits(40), self.rnd.getrandbits(7)))
 
-    def uhdr(self, t, n, q=0, flags=5):
-        return self._mk('PERF_STK_UHdr', 'UHDR', q, t, {'n': n}, words=(flags, n, 0, 0))
+    def uhdr(self, t, n, q=0, flags=None):
+        flags = self.rnd.getrandbits(9) if flags is None else flags      # any callstack flag combination
+        return self._mk('PERF_STK_UHdr', 'UHDR', q, t, {'n': n},
+                        words=(flags, n, self.rnd.getrandbits(64), self.rnd.getrandbits(64)))
 
     def udata(self, t, franks, q=0):
         assert len(franks) == 4
@@ -432,6 +442,19 @@ def run_stream(world, stream, parser=None, log=None, render=True):
                 ex.error = (k, repr(exn))
                 break
         ex.steps.append(step)
+    # nothing already reported may be changed later: every trace must still render as it did when it was emitted
+    if render and ex.error is None:
+        at_emit = dict(ex.texts)
+        for k, tr in ex.traces:
+            try:
+                now = str(tr)
+            except Exception as exn:
+                now = 'RAISED ' + type(exn).__name__
+            if k in at_emit and now != at_emit[k]:
+                ex.steps[k - 1] = {'emit': True, 'err': 'changed-after-report'}
+                ex.error = (k, 'trace emitted at step %d read %r then, reads %r after the run' % (k, at_emit[k], now))
+                ex.steps = ex.steps[:k]
+                break
     return ex
 
 
